@@ -33,6 +33,8 @@ pub enum Op {
     IntoVec,
     IntoIter(u64),
     DropArr,
+    /// the k-th element destructor running during the wrapped operation panics
+    Bomb(u64, Box<Op>),
 }
 
 fn enc_drain(o: &mut Vec<u64>, st: &[DStep], f: DEnd) {
@@ -78,6 +80,7 @@ impl Op {
             Op::IntoVec => o.push(18),
             Op::IntoIter(k) => o.extend([19, *k]),
             Op::DropArr => o.push(20),
+            Op::Bomb(k, op) => { o.extend([21, *k]); op.encode(o) }
         }
     }
     pub fn decode(i: &mut std::slice::Iter<'_, u64>) -> Op {
@@ -104,6 +107,7 @@ impl Op {
             18 => Op::IntoVec,
             19 => Op::IntoIter(n()),
             20 => Op::DropArr,
+            21 => { let k = n(); Op::Bomb(k, Box::new(Op::decode(i))) }
             x => panic!("bad opcode {x}"),
         }
     }
@@ -188,6 +192,10 @@ fn apply<T: Elem>(t: &mut TooDee<T>, op: &Op, ret: &mut Vec<u64>) {
             drop(got);
         }
         Op::DropArr => *t = TooDee::default(),
+        Op::Bomb(k, op) => {
+            LEDGER.with(|l| l.borrow_mut().drop_panic_in = Some(*k));
+            apply(t, op, ret);
+        }
     }
 }
 
@@ -240,6 +248,7 @@ pub fn run_hist<T: Elem>(ops: &[Op], obs: &mut Vec<u64>) {
     for op in ops {
         let mut ret: Vec<u64> = vec![];
         let ok = catch_unwind(AssertUnwindSafe(|| apply(&mut t, op, &mut ret))).is_ok();
+        LEDGER.with(|l| l.borrow_mut().drop_panic_in = None);
         if !ok {
             ret.clear();
         }
@@ -399,8 +408,16 @@ pub fn gen_c07(out: &mut Out, tier: &str, rng: &mut Rng) {
                             2 => Op::PopRow(st, DEnd::Drop),
                             _ => Op::PopCol(st, DEnd::Drop),
                         };
-                        let ops = vec![FromVecOp(c, r), Op::Capacity(2, 0), op];
+                        let ops = vec![FromVecOp(c, r), Op::Capacity(2, 0), op.clone()];
                         emit(out, 7, track, &ops);
+                        // a panicking element destructor at every position: the drop guards
+                        // must still close the gap
+                        if track && (c + r).wrapping_add(idx) % 3 == 0 {
+                            for k in 0..=line {
+                                let ops = vec![FromVecOp(c, r), Op::Bomb(k, Box::new(op.clone()))];
+                                emit(out, 7, true, &ops);
+                            }
+                        }
                     }
                 }
             }
@@ -458,11 +475,13 @@ pub fn rand_op(rng: &mut Rng, c: u64, r: u64, next_id: &mut u32, honest_only: bo
         6 | 7 => { let w = if r == 0 { rng.below(5) } else { c }; Op::PushRow(script(rng, w, &mut fresh)) }
         8 | 9 => { let i = rand_dim_arg(rng, c + 1, 25); let w = if c == 0 { rng.below(5) } else { r }; Op::InsertCol(i, script(rng, w, &mut fresh)) }
         10 | 11 => { let w = if c == 0 { rng.below(5) } else { r }; Op::PushCol(script(rng, w, &mut fresh)) }
-        12 | 13 => Op::RemoveRow(rand_dim_arg(rng, r, 20), random_script(rng, c), fin(rng)),
+        12 => Op::RemoveRow(rand_dim_arg(rng, r, 20), random_script(rng, c), fin(rng)),
+        13 => { let o = Op::RemoveRow(rand_dim_arg(rng, r, 20), random_script(rng, c), DEnd::Drop); if rng.chance(50) { Op::Bomb(rng.below(c + 1), Box::new(o)) } else { o } }
         14 => Op::PopRow(random_script(rng, c), fin(rng)),
-        15 | 16 => Op::RemoveCol(rand_dim_arg(rng, c, 20), random_script(rng, r), fin(rng)),
+        15 => Op::RemoveCol(rand_dim_arg(rng, c, 20), random_script(rng, r), fin(rng)),
+        16 => { let o = Op::RemoveCol(rand_dim_arg(rng, c, 20), random_script(rng, r), DEnd::Drop); if rng.chance(50) { Op::Bomb(rng.below(r + 1), Box::new(o)) } else { o } }
         17 => Op::PopCol(random_script(rng, r), fin(rng)),
-        18 => if rng.chance(30) { Op::Clear } else { Op::SwapDims },
+        18 => if rng.chance(30) { Op::Clear } else if rng.chance(30) { Op::Bomb(rng.below(c * r + 1), Box::new(Op::Clear)) } else { Op::SwapDims },
         19 => Op::SwapDims,
         20 => Op::Capacity(rng.below(3), rng.below(40)),
         21 | 22 => { let v = fresh(1)[0]; Op::SetCell(rand_dim_arg(rng, c, 20), rand_dim_arg(rng, r, 20), v) }
